@@ -471,6 +471,8 @@ class Boss:
     S2_happy.upon(error, enter=S4_closed, outputs=[W_close_with_error, send_status_closed])
 
     S3_closing.upon(rx_unwelcome, enter=S3_closing, outputs=[])
+    S3_closing.upon(got_code, enter=S3_closing, outputs=[])
+    S3_closing.upon(got_key, enter=S3_closing, outputs=[])
     S3_closing.upon(rx_error, enter=S3_closing, outputs=[])
     S3_closing.upon(got_verifier, enter=S3_closing, outputs=[])
     S3_closing.upon(_got_phase, enter=S3_closing, outputs=[])
@@ -484,6 +486,8 @@ class Boss:
     S3_closing.upon(error, enter=S4_closed, outputs=[W_close_with_error, send_status_closed])
 
     S4_closed.upon(rx_unwelcome, enter=S4_closed, outputs=[])
+    S4_closed.upon(got_code, enter=S4_closed, outputs=[])
+    S4_closed.upon(got_key, enter=S4_closed, outputs=[])
     S4_closed.upon(got_verifier, enter=S4_closed, outputs=[])
     S4_closed.upon(_got_phase, enter=S4_closed, outputs=[])
     S4_closed.upon(_got_version, enter=S4_closed, outputs=[])
